@@ -220,12 +220,18 @@ def fmt_optional(repo: Repo, rep):
         from ..cfg import dominating_edges
         from .emit import flag_values
 
+        from .emit import cfg_of_node, to_caller
+
         nodes = [s.node] + [d for _, d, how in flag_values(s) if how == "var"]
         for nd in nodes:
-            for c, lab in dominating_edges(s.cfg, nd):
+            ncfg = cfg_of_node(s, nd)
+            for c, lab in dominating_edges(ncfg, nd):
                 e = c.ast
                 if c.kind == "cond" and isinstance(e, ast.Compare) and len(e.ops) == 1 and "_token_of_node" in norm(e):
                     other = e.comparators[0] if "_token_of_node" in norm(e.left) else e.left
+                    if ncfg is not s.cfg:
+                        other = to_caller(nd, other)
+                        c = s.node
                     src = resolve_alias(s.cfg, c, other) if isinstance(other, ast.Name) else other
                     n += 1
                     # a branch may have assigned [] for a missing node; any value_to_token def is enough
